@@ -6,7 +6,10 @@ rule body and rejects the module when a call to one of these operators occurs an
 This file models that walk on a term language that has the shapes that matter: variables, literals,
 calls (an assignment `x := e` or a unification `x = e` is the call `assign`/`eq` with two arguments, an
 infix expression the call of its operator), collections (arrays, sets, objects) and comprehensions
-(a head term and a body, which is a list of statements).  A rule body is a list of terms.
+(a head term and a body, which is a list of statements), and the two forms of the `with` modifier: `t with target as value`
+(a value term) and `t with target as f` where `f` names a FUNCTION (a built-in or a user function) — there the operator is
+never called by name, the replaced function runs it; the compiler refuses such a binding when `f` is denied
+("with keyword replacing built-in function: target must not be unsafe").  A rule body is a list of terms.
 Executable, total, structural.
 -/
 namespace Acv.RegoTerm
@@ -17,6 +20,8 @@ inductive T
   | call (op : String) (args : List T)
   | coll (items : List T)
   | compr (head : T) (body : List T)
+  | withVal (t : T) (target : String) (value : T)
+  | withFn (t : T) (target : String) (fn : String)
 
 mutual
 /-- Does a call to a denied operator occur anywhere in the term? -/
@@ -26,6 +31,8 @@ def mentionsDenied (deny : List String) : T → Bool
   | .call op args => deny.contains op || mentionsDeniedList deny args
   | .coll items => mentionsDeniedList deny items
   | .compr head body => mentionsDenied deny head || mentionsDeniedList deny body
+  | .withVal t _ value => mentionsDenied deny t || mentionsDenied deny value
+  | .withFn t _ fn => deny.contains fn || mentionsDenied deny t
 /-- … anywhere in one of the terms? -/
 def mentionsDeniedList (deny : List String) : List T → Bool
   | [] => false
@@ -43,6 +50,9 @@ inductive Ctx
   | collItem (pre : List T) (c : Ctx) (post : List T)
   | comprHead (c : Ctx) (body : List T)
   | comprBody (head : T) (pre : List T) (c : Ctx) (post : List T)
+  | withValBody (c : Ctx) (target : String) (value : T)
+  | withValValue (t : T) (target : String) (c : Ctx)
+  | withFnBody (c : Ctx) (target : String) (fn : String)
 
 /-- Fill the hole. -/
 def plug : Ctx → T → T
@@ -51,6 +61,9 @@ def plug : Ctx → T → T
   | .collItem pre c post, t => .coll (pre ++ plug c t :: post)
   | .comprHead c body, t => .compr (plug c t) body
   | .comprBody head pre c post, t => .compr head (pre ++ plug c t :: post)
+  | .withValBody c target value, t => .withVal (plug c t) target value
+  | .withValValue b target c, t => .withVal b target (plug c t)
+  | .withFnBody c target fn, t => .withFn (plug c t) target fn
 
 /-- Nesting depth of the hole. -/
 def Ctx.depth : Ctx → Nat
@@ -59,5 +72,14 @@ def Ctx.depth : Ctx → Nat
   | .collItem _ c _ => c.depth + 1
   | .comprHead c _ => c.depth + 1
   | .comprBody _ _ c _ => c.depth + 1
+  | .withValBody c _ _ => c.depth + 1
+  | .withValValue _ _ c => c.depth + 1
+  | .withFnBody c _ _ => c.depth + 1
+
+/-- `t` USES operator `op` directly: it is a call of `op`, or a `with` modifier that binds `op` to another function. -/
+def T.usesOp (op : String) : T → Bool
+  | .call o _ => o == op
+  | .withFn _ _ fn => fn == op
+  | _ => false
 
 end Acv.RegoTerm
